@@ -69,6 +69,14 @@ impl<'i> ParseError<'i> {
     }
 }
 
+#[cfg(feature = "verif-hooks")]
+impl<'i> ParseError<'i> {
+    /// Returns `(line_number, span_start, span_len, line)` as stored.
+    pub fn verif_span(&self) -> (usize, usize, usize, &'i str) {
+        (self.line_number, self.span_start, self.span_len, self.input)
+    }
+}
+
 impl Display for ParseError<'_> {
     fn fmt(&self, f: &mut Formatter<'_>) -> fmt::Result {
         writeln!(
@@ -183,6 +191,8 @@ impl<'s> FilterParser<'s> {
         } else {
             let mut nested = self.clone();
             nested.current_nesting_depth += 1;
+            #[cfg(feature = "verif-hooks")]
+            crate::verif::note_nesting(nested.current_nesting_depth);
             Ok(nested)
         }
     }
